@@ -35,7 +35,7 @@ const VERBOSITIES = [undefined, 'OFF', 'MANDATORY', 'INFORMATION', 'DEBUG', 'deb
 
 module.exports = mk({
   id: 'C15',
-  families: ['A', 'C', 'M', 'S', 'T', 'H', 'Q', 'R'],
+  families: ['A', 'C', 'M', 'S', 'T', 'H', 'Q', 'R', 'N', 'L'],
   familyOpts: () => ({}),
   // the grammar families are judged under DEBUG verbosity (per-tag breakdown is the richer oracle) and with
   // every hook renamed (a tag is the SOURCE name of the operation, never the hook's)
